@@ -185,6 +185,7 @@ class WriteTool(BaseTool):
         # Find literal zone boundaries (``` fences)
         # Same fence rule as the lexer: a zone opened with N backticks is closed
         # only by a line of exactly N backticks; shorter runs inside are content.
+        fences: list[tuple[int, int]] = []
         in_fence = False
         fence_start = 0
         fence_len = 0
@@ -201,22 +202,45 @@ class WriteTool(BaseTool):
                 fence_len = len(fence_match.group(3))
             elif len(fence_match.group(3)) == fence_len and not (fence_match.group(4) or "").strip():
                 in_fence = False
-                fence_end = line_start + len(line)
-                protected.append((fence_start, fence_end))
+                fences.append((fence_start, line_start + len(line)))
 
         # If fence was never closed, protect from fence_start to end
         if in_fence:
-            protected.append((fence_start, len(content)))
+            fences.append((fence_start, len(content)))
+        protected.extend(fences)
 
-        # Find quoted strings: text between "" on a line (after ::)
-        quote_pattern = re.compile(r'"(?:[^"\\]|\\.)*"')
-        for m in quote_pattern.finditer(content):
-            protected.append((m.start(), m.end()))
-
-        # Find comments: // to end of line
-        comment_pattern = re.compile(r"//[^\n]*")
-        for m in comment_pattern.finditer(content):
-            protected.append((m.start(), m.end()))
+        # Find quoted strings and comments in ONE left-to-right pass over the text
+        # outside literal zones, so that a quote character inside a zone or a comment
+        # (or a // inside a string) cannot start a range of the other kind and
+        # shift the pairing of every later quote.
+        fence_at = dict(fences)
+        fence_starts = sorted(fence_at)
+        pos = 0
+        end_of_text = len(content)
+        while pos < end_of_text:
+            if pos in fence_at:
+                pos = max(fence_at[pos], pos + 1)
+                continue
+            ch = content[pos]
+            if ch == '"':
+                limit = next((f for f in fence_starts if f > pos), end_of_text)
+                if content.startswith('"""', pos):
+                    close = content.find('"""', pos + 3, limit)
+                    end = limit if close < 0 else close + 3
+                else:
+                    end = pos + 1
+                    while end < limit and content[end] not in '"\n':
+                        end += 2 if content[end] == "\\" else 1
+                    end = min(end + 1, limit)
+                protected.append((pos, end))
+                pos = end
+            elif ch == "/" and content.startswith("//", pos):
+                nl = content.find("\n", pos)
+                end = end_of_text if nl < 0 else nl
+                protected.append((pos, end))
+                pos = end
+            else:
+                pos += 1
 
         # Sort protected ranges for efficient lookup
         protected.sort()
